@@ -140,7 +140,7 @@ func TestC09(t *testing.T) {
 	curProp = "C09"
 	r := vf.NewRec("C09")
 	defer r.Finish(t)
-	guard.StartWatchdog(*vf.Out, "C09")
+	guard.StartWatchdog(*vf.Out, vf.Label("C09"))
 
 	for _, rf := range r.LoadReplays(t) {
 		var c caseC09
